@@ -384,3 +384,14 @@ Proof.
   eexists. split; [vm_compute; reflexivity|]. split; [|reflexivity].
   exists 1000000000. split; [reflexivity|]. vm_compute. discriminate.
 Qed.
+
+(** collected for Props/C17.v *)
+Theorem gas_limit_facts :
+  gas_limit (Some (-1)) = max_uint64 /\ gas_limit None = max_uint64 /\
+  (forall m, 0 <= m -> gas_limit (Some m) = m) /\
+  (forall p mg, 0 < p_elasticity p -> (forall m, mg = Some m -> m <= max_uint64) ->
+     is_uint64 (target p mg) = true).
+Proof.
+  exact (conj (proj1 gas_limit_unlimited) (conj (proj2 gas_limit_unlimited)
+        (conj gas_limit_configured target_is_uint64))).
+Qed.
